@@ -298,3 +298,125 @@ def replay_behaviour(args):
 def _unname(namer, comps):
     inv = dict((v, k) for k, v in namer.tok.items())
     return '/'.join(inv.get(c, c) for c in comps)
+
+
+# ---------------------------------------------------------------------------------------------
+# C02: the attacker who recomputes Manifests up to level k
+
+def dist_step(root, s, namer, relpath, name, meta=None):
+    from . import gem
+    top = os.path.join(root, 'Manifest')
+    obs, ld = gem.call(gem.loader, top)
+    res = []
+    if obs['end'] == 'ok':
+        obs, r = gem.call(ld.find_dist_entry, name, relpath)
+        if obs['end'] == 'ok' and r is not None:
+            res = [abs_entry(r, r.path, namer, s, root)]
+    ev = {'a': 'lookup', 'api': 'find_dist_entry', 'sub': namer.path(relpath), 'name': name,
+          'last': -1, 'keep': False, 'end': obs['end'], 'exc': obs['exc'], 'ret': True,
+          'reported': [], 'res': res}
+    return {'s': s, 'ev': ev, 'meta': meta}
+
+
+def one_tamper(args):
+    seed, idx, opts = args
+    rng = random.Random('tamper-%d-%d' % (seed, idx))
+    root = tlc.scratch_dir('vc')
+    try:
+        depth = rng.randrange(1, 6)
+        L = gen.Layout(rng)
+        L.mf['Manifest'] = []
+        dirs = ['']
+        names = rng.sample(gen.DIRNAMES, 5)
+        for k in range(depth):
+            dirs.append((dirs[-1] + '/' if dirs[-1] else '') + names[k])
+        L.dirs = list(dirs)
+        level_mf = {0: 'Manifest'}
+        for k in range(1, depth + 1):
+            comp = rng.choice(gen.COMPS)
+            mp = dirs[k] + '/Manifest' + ('' if comp == 'plain' else '.' + comp)
+            L.mf[mp] = []
+            level_mf[k] = mp
+            parent = level_mf[k - 1]
+            if rng.random() < 0.2 and k >= 1:
+                # an intermediate second Manifest in the parent's directory carries the reference
+                comp2 = rng.choice(gen.COMPS)
+                pd = dirs[k - 1]
+                xp = (pd + '/' if pd else '') + 'Manifest.extra' + ('' if comp2 == 'plain' else '.' + comp2)
+                if xp not in L.mf:
+                    L.mf[xp] = []
+                    L.mf[parent].append({'tag': 'MANIFEST', 'path': L.rel(xp, parent), 'size': 0,
+                                         'ck': {'SHA256': ''}, 'ref': xp})
+                    parent = xp
+            L.mf[parent].append({'tag': 'MANIFEST', 'path': L.rel(mp, parent), 'size': 0,
+                                 'ck': dict((h, '') for h in rng.choice(gen.HASHSETS[:4])), 'ref': mp})
+        pal = gen.palette(rng)
+        for k in range(depth + 1):
+            for _ in range(rng.randrange(0, 3) if k < depth else rng.randrange(1, 3)):
+                name = rng.choice(gen.NAMES)
+                p = (dirs[k] + '/' if dirs[k] else '') + name
+                if p in L.files or p in L.dirs:
+                    continue
+                L.files[p] = rng.choice(pal)
+                # the entry lives in the Manifest of its own level (deepest)
+                L.add_file_entry(level_mf[k], p, L.files[p], 'DATA', rng.choice(gen.HASHSETS[:4]))
+            if rng.random() < 0.5:
+                L.mf[level_mf[k]].append({'tag': 'DIST', 'path': 'dist-%d.tar' % k, 'size': 10 + k,
+                                          'ck': {'SHA256': '%064x' % k}})
+        L.write(root)
+        # ---- attack
+        j = rng.randrange(1, depth + 1)          # level of the tampered object (below the top)
+        k = rng.randrange(1, j + 1)              # Manifests of levels j..k recomputed, k-1 untouched
+        if rng.random() < 0.15:
+            k = 0                                # control: full recomputation incl. top => consistent
+        kind = rng.choice(['change', 'add', 'remove', 'dist', 'none'])
+        mp = level_mf[j]
+        here = [p for p in L.files if os.path.dirname(p) == dirs[j]]
+        target = None
+        if kind == 'change' and here:
+            target = rng.choice(here)
+            newdata = rng.choice([x for x in pal if x != L.files[target]])
+            with open(os.path.join(root, target), 'wb') as f:
+                f.write(newdata)
+            for e in L.mf[mp]:
+                if e['tag'] == 'DATA' and e['path'] == L.rel(target, mp):
+                    e['size'] = len(newdata)
+                    e['ck'] = dict((h, fm.digest(h, newdata)) for h in e['ck'])
+        elif kind == 'add':
+            target = dirs[j] + '/added'
+            with open(os.path.join(root, target), 'wb') as f:
+                f.write(b'added by attacker')
+            L.add_file_entry(mp, target, b'added by attacker', 'DATA', ['SHA256'])
+        elif kind == 'remove' and here:
+            target = rng.choice(here)
+            os.unlink(os.path.join(root, target))
+            L.mf[mp] = [e for e in L.mf[mp] if not (e['tag'] == 'DATA' and e['path'] == L.rel(target, mp))]
+        elif kind == 'dist':
+            target = 'dist'
+            L.mf[mp] = [e for e in L.mf[mp] if e['tag'] != 'DIST'] + [
+                {'tag': 'DIST', 'path': 'dist-%d.tar' % j, 'size': 999, 'ck': {'SHA256': 'ee' * 32}},
+                {'tag': 'DIST', 'path': 'evil.tar', 'size': 1, 'ck': {'SHA256': 'ff' * 32}}]
+        # recompute levels j .. k (deepest first); everything at a level: all Manifests whose
+        # directory is dirs[level]
+        if kind != 'none' and target is not None:
+            only = set()
+            for lvl in range(j, max(k, 0) - 1, -1):
+                for m in L.mf:
+                    if L.mdir(m) == dirs[lvl] and (lvl >= 1 or k == 0):
+                        only.add(m)
+            # freeze the MANIFEST entries of untouched levels
+            L.write_manifests(root, only=only)
+        namer = fm.Namer()
+        s = fm.project(root, 'Manifest', namer=namer)
+        meta = {'seed': seed, 'idx': idx, 'depth': depth, 'j': j, 'k': k, 'kind': kind, 'target': target}
+        subs = ['', dirs[rng.randrange(0, depth + 1)]]
+        recs = verify_steps(root, s, namer, rng, subs, want=('lib', 'keep'), meta=meta)
+        paths = [p for p in [target, rng.choice(sorted(L.files)) if L.files else None] if p and p != 'dist']
+        paths.append(dirs[j] + '/nonexistent')
+        recs += lookup_steps(root, s, namer, rng, paths, meta=meta)
+        for lvl in sorted(set([j, rng.randrange(0, depth + 1)])):
+            for name in ('dist-%d.tar' % j, 'evil.tar', 'dist-0.tar'):
+                recs.append(dist_step(root, s, namer, dirs[lvl], name, meta=meta))
+        return recs
+    finally:
+        shutil.rmtree(root, ignore_errors=True)
